@@ -639,7 +639,7 @@ func init() {
 		Phases: []Phase{
 			{Name: "all separator placements for n<=5 rows x 3 flavours", Exhaustive: true, N: Fixed(63*3, 63*3), Run: c07Separators},
 			{Name: "all skipable assignments to column 0 and 3 columns x 2 ways of setting", Exhaustive: true, N: Fixed(162, 162), Run: c07Skipables},
-			{Name: "random tables and misconfigurations", N: Fixed(5000, 400000), Run: c07Random},
+			{Name: "random tables and misconfigurations", N: Fixed(5000, 3000000), Run: c07Random},
 		},
 	})
 }
